@@ -378,3 +378,16 @@ pub fn set_mem_limit(bytes: u64) {
         libc::setrlimit(libc::RLIMIT_AS, &lim);
     }
 }
+
+/// write a scratch file that other worker processes read at the same time: skip when the content is already there,
+/// otherwise write a private temporary file and rename it over (a plain write truncates first, and a concurrent reader
+/// would see an empty or half-written file)
+pub fn write_scratch(path: &str, content: &[u8]) {
+    if std::fs::read(path).ok().as_deref() == Some(content) {
+        return;
+    }
+    let tmp = format!("{}.{}.tmp", path, std::process::id());
+    if std::fs::write(&tmp, content).is_ok() {
+        let _ = std::fs::rename(&tmp, path);
+    }
+}
